@@ -69,7 +69,7 @@ def plan(tier, seed):
 
 
 def mandatory(tier):
-    return [f"op/{o}" for o in OPS] + ["chain", "type/ImageBatch", "type/Image", "type/FlowFields", "type/FlowField", "narrow/negative_dim", "compared_samples", "pyramid/align_corners=None", "pyramid/align_corners=True", "pyramid/align_corners=False", "pyramid/spacing"] + [f"data_transforms/{n}" for n in ("AvgPoolImage", "CenterCropImage", "CenterPadImage", "NarrowImage", "ResampleImage", "ResizeImage", "config")]
+    return [f"op/{o}" for o in OPS] + ["chain", "type/ImageBatch", "type/Image", "type/FlowFields", "type/FlowField", "narrow/negative_dim", "narrow/negative_start", "compared_samples", "pyramid/align_corners=None", "pyramid/align_corners=True", "pyramid/align_corners=False", "pyramid/spacing"] + [f"data_transforms/{n}" for n in ("AvgPoolImage", "CenterCropImage", "CenterPadImage", "NarrowImage", "ResampleImage", "ResizeImage", "config")]
 
 
 # ---------------------------------------------------------------------------------------------
@@ -158,6 +158,9 @@ def check_index_exact(ctx, op, res, noise_src, info):
         ctx.close("index_op_samples_on_source_lattice", near, 0.0, 1e-3, key=f"{op}/lattice", op=op, **info)
         ii = np.round(idx).astype(int)
         inside = ((ii >= 0) & (ii <= (sref.n - 1).astype(int))).all(axis=-1)
+        if op == "narrow":
+            # narrowing only selects: every returned sample is a sample of the source
+            ctx.true("narrowed_samples_are_source_samples", bool(inside.all()), key=f"{op}/outside_source", op=op, n_outside=int((~inside).sum()), **info)
         if not inside.any():
             continue
         sel = tuple(ii[inside][:, d] for d in range(ref.D - 1, -1, -1))
@@ -273,6 +276,8 @@ def rand_call(rng, batch, op):
         tdim = batch.ndim - 1 - sdim
         if rng.integers(0, 2):
             tdim -= batch.ndim  # the same axis counted from the end
+        if rng.integers(0, 3) == 0:
+            start -= n[sdim]  # the same first sample counted from the end (accepted by torch.narrow)
         return (lambda: batch.narrow(tdim, start, length)), dict(op=op, dim=tdim, start=start, length=length)
     if op == "avg_pool":
         if rng.integers(0, 2):
@@ -402,6 +407,8 @@ def apply_op(ctx, rng, subj: Subject, op, desc0, noise=None):
         call, desc = rand_call(rng, batch, op)
         if op == "narrow" and desc["dim"] < 0:
             ctx.bucket("narrow/negative_dim")
+        if op == "narrow" and desc["start"] < 0:
+            ctx.bucket("narrow/negative_start")
     pub = {k: v for k, v in desc.items() if not k.startswith("_")}
     info["call"] = pub
     ctx.nontriv(desc0, pub)
